@@ -16,24 +16,29 @@ impl EventSource for Sleep {
     // register the coroutine to the park
     fn subscribe(&mut self, co: CoroutineImpl) {
         let cancel = co_cancel_data(&co);
-        // put the coroutine into the timer list
         #[cfg(may_verif)]
         let vid = crate::verif::co_vid(&co);
+        // once the coroutine is registered below it may be resumed (by a cancel): `self` lives on its stack
+        let dur = self.dur;
         let sleep_co = Arc::new(AtomicOption::some(co));
-        #[cfg(may_verif)]
-        crate::verif::pt("slsub.add_timer", 0, vid, 0);
-        get_scheduler().add_timer(self.dur, sleep_co.clone());
 
-        // register the cancel data
+        // register the cancel data before the timer is armed: once the timer can fire the coroutine may
+        // be resumed and block somewhere else at any time, a registration made after that would replace
+        // the newer one and the cancel of that later wait would be lost
         #[cfg(may_verif)]
         crate::verif::pt("slsub.set_cancel_co", 0, vid, 0);
-        cancel.set_co(sleep_co);
+        cancel.set_co(sleep_co.clone());
         // re-check the cancel status
         #[cfg(may_verif)]
         crate::verif::pt("slsub.recheck_cancel", 0, vid, 0);
         if cancel.is_canceled() {
             unsafe { cancel.cancel() };
         }
+
+        // put the coroutine into the timer list
+        #[cfg(may_verif)]
+        crate::verif::pt("slsub.add_timer", 0, vid, 0);
+        get_scheduler().add_timer(dur, sleep_co);
     }
 }
 
